@@ -1,7 +1,8 @@
 import Deb822Verif.Lemmas.RelCanonField
-/-! The conversion `lossy::Relation → lossless::Relation` (through `RelationBuilder`) on valid values
-    outside the regions of the open findings F-C14-1 / F-C14-2: the tree it builds, its text, and
-    the conversion back (C14, stage 2). -/
+import Deb822Verif.Props.C09
+/-! The conversion `lossy::Relation → lossless::Relation` (through `RelationBuilder`) on valid values:
+    the tree it builds is the tree the parser builds for the canonical text, hence its text and the
+    conversion back (C14, stage 2). -/
 set_option linter.unusedSimpArgs false
 set_option linter.unusedVariables false
 namespace Deb822Verif.Rel.Build
@@ -16,21 +17,22 @@ def aqPart (aq : Option Str) : List RNode :=
 
 def verPart (v : Option (VC × Version)) : List RNode :=
   match v with
-  | some (c, ver) =>
-    [T .WHITESPACE " ",
-     .node .VERSION [T .L_PARENS "(", .node .CONSTRAINT (constraintToks c), T .WHITESPACE " ",
-       .tok .IDENT ver.display, T .R_PARENS ")"]]
+  | some (c, ver) => [T .WHITESPACE " ", versionNode c ver]
   | none => []
 
-def profPart (ps : List (List BuildProfile)) : List RNode :=
-  match ps with
-  | [p] => [T .WHITESPACE " ", profilesNode p]
+/-- an empty list is "no list" for `set_architectures` -/
+def archPart (a : Option (List Str)) : List RNode :=
+  match a with
+  | some (x :: xs) => [T .WHITESPACE " ", architecturesNode (x :: xs)]
   | _ => []
 
+def profsPart (ps : List (List BuildProfile)) : List RNode :=
+  (ps.map fun p => [T .WHITESPACE " ", profilesNode p]).flatten
+
 /-- children of the RELATION node `RelationBuilder::build` produces -/
-def builtChildren (r : Lossy.Relation) (as : List Str) : List RNode :=
+def builtChildren (r : Lossy.Relation) : List RNode :=
   .tok .IDENT r.name :: (aqPart r.archqual ++ (verPart r.version
-    ++ ([T .WHITESPACE " ", architecturesNode as] ++ profPart r.profiles)))
+    ++ (archPart r.architectures ++ profsPart r.profiles)))
 
 @[simp] theorem kind_tok (k : Kind) (t : Str) : (Node.tok k t).kind = k := rfl
 @[simp] theorem kind_node (k : Kind) (cs : List RNode) : (Node.node k cs).kind = k := rfl
@@ -41,28 +43,90 @@ def builtChildren (r : Lossy.Relation) (as : List Str) : List RNode :=
 @[simp] theorem architecturesNode_isNode (as : List Str) : (architecturesNode as).isNode = true := rfl
 @[simp] theorem profilesNode_kind (p : List BuildProfile) : (profilesNode p).kind = .PROFILES := rfl
 @[simp] theorem profilesNode_isNode (p : List BuildProfile) : (profilesNode p).isNode = true := rfl
+@[simp] theorem versionNode_kind (c : VC) (v : Version) : (versionNode c v).kind = .VERSION := rfl
+@[simp] theorem versionNode_isNode (c : VC) (v : Version) : (versionNode c v).isNode = true := rfl
 
-theorem toLossless_ok (r : Lossy.Relation) (as : List Str) (ha : r.architectures = some as)
-    (hp : r.profiles.length ≤ 1) :
-    toLossless r = .ok ⟨.node .RELATION (builtChildren r as), false⟩ := by
+/-- no PROFILES node among the children -/
+def noProf (cs : List RNode) : Prop := ∀ c ∈ cs, (c.isNode && c.kind == Kind.PROFILES) = false
+
+theorem lastNodeIdx_none (cs : List RNode) (h : noProf cs) : lastNodeIdx .PROFILES cs = none := by
+  have : (cs.reverse.findIdx? fun c => c.isNode && c.kind == Kind.PROFILES) = none := by
+    rw [List.findIdx?_eq_none_iff]
+    intro c hc
+    exact h c (by simpa using hc)
+  simp [lastNodeIdx, this]
+
+theorem lastNodeIdx_snoc (cs : List RNode) (n : RNode) (h : (n.isNode && n.kind == Kind.PROFILES) = true) :
+    lastNodeIdx .PROFILES (cs ++ [n]) = some cs.length := by
+  simp [lastNodeIdx, List.reverse_append, List.findIdx?_cons, h]
+
+theorem addProfile_end (k : Kind) (cs : List RNode) (p : List BuildProfile)
+    (h : noProf cs ∨ ∃ xs n, cs = xs ++ [n] ∧ (n.isNode && n.kind == Kind.PROFILES) = true) :
+    addProfile (.node k cs) p = .node k (cs ++ [T .WHITESPACE " ", profilesNode p]) := by
+  have hins : ∀ l new : List RNode, insertAt l l.length new = l ++ new := by
+    intro l new; simp [insertAt]
+  rcases h with h | ⟨xs, n, rfl, hn⟩
+  · simp only [addProfile, onChildren, children_node, kind_node, lastNodeIdx_none cs h, hins]
+  · have hl : xs.length + 1 = (xs ++ [n]).length := by simp
+    simp only [addProfile, onChildren, children_node, kind_node, lastNodeIdx_snoc xs n hn, hl, hins]
+
+theorem foldl_addProfile (k : Kind) (cs : List RNode) (ps : List (List BuildProfile)) (h : noProf cs) :
+    ps.foldl addProfile (.node k cs) = .node k (cs ++ profsPart ps) := by
+  have gen : ∀ (ps : List (List BuildProfile)) (ds : List RNode),
+      (noProf ds ∨ ∃ xs n, ds = xs ++ [n] ∧ (n.isNode && n.kind == Kind.PROFILES) = true) →
+      ps.foldl addProfile (.node k ds) = .node k (ds ++ profsPart ps) := by
+    intro ps
+    induction ps with
+    | nil => intro ds _; simp [profsPart]
+    | cons p ps ih =>
+      intro ds hd
+      rw [List.foldl_cons, addProfile_end k ds p hd,
+        ih _ (Or.inr ⟨ds ++ [T .WHITESPACE " "], profilesNode p, by simp, rfl⟩)]
+      simp [profsPart]
+  exact gen ps cs (Or.inl h)
+
+theorem toLossless_eq (r : Lossy.Relation) : toLossless r = .node .RELATION (builtChildren r) := by
   cases r with
   | mk name aq archs ver profs =>
-    simp only at ha hp; subst ha
-    have hprofs : profs = [] ∨ ∃ p, profs = [p] := by
-      cases profs with
-      | nil => exact Or.inl rfl
-      | cons p ps =>
-        cases ps with
-        | nil => exact Or.inr ⟨p, rfl⟩
-        | cons q qs => simp at hp
-    rcases hprofs with rfl | ⟨p, rfl⟩ <;> cases aq <;> rcases ver with _ | ⟨c, v⟩ <;>
-      simp [toLossless, RelationBuilder.new, RelationBuilder.setVersionConstraint,
-        RelationBuilder.setArchqual, RelationBuilder.setArchitectures, RelationBuilder.setProfiles,
-        RelationBuilder.build, RelationBuilder.addProfiles, relationNew, Build.setArchqual,
-        Build.setArchitectures, Build.addProfile, spliceRoot, nodeIdx, elemIdx, afterName, insertAt,
-        replaceAt, Outcome.bind, builtChildren, aqPart, verPart, profPart, List.findIdx?_cons, T]
+    have hC0 : ∀ (C0 : List RNode), noProf C0 →
+        profs.foldl addProfile (.node .RELATION C0) = .node .RELATION (C0 ++ profsPart profs) :=
+      fun C0 h => foldl_addProfile _ C0 profs h
+    have key : ∀ (as : List Str),
+        (RelationBuilder.build ⟨name, ver, aq, as, profs⟩)
+          = .node .RELATION (.tok .IDENT name :: (aqPart aq ++ (verPart ver
+              ++ (archPart (some as) ++ profsPart profs)))) := by
+      intro as
+      cases as with
+      | nil =>
+        cases aq <;> rcases ver with _ | ⟨c, v⟩ <;>
+          (simp only [RelationBuilder.build, relationNew, Build.setArchqual, Build.setArchitectures,
+            onChildren, nodeIdx, elemIdx, afterName, insertAt, replaceAt, aqPart, verPart, archPart,
+            List.isEmpty_nil, ↓reduceIte]
+           simp [List.findIdx?_cons, T]
+           rw [hC0 _ (by intro c hc; simp at hc; rcases hc with rfl | rfl | rfl | rfl <;> rfl)]
+           simp)
+      | cons a rest =>
+        cases aq <;> rcases ver with _ | ⟨c, v⟩ <;>
+          (simp only [RelationBuilder.build, relationNew, Build.setArchqual, Build.setArchitectures,
+            onChildren, nodeIdx, elemIdx, afterName, insertAt, replaceAt, aqPart, verPart, archPart,
+            List.isEmpty_cons, Bool.false_eq_true, ↓reduceIte]
+           simp [List.findIdx?_cons, T]
+           rw [hC0 _ (by intro c hc; simp at hc; rcases hc with rfl | rfl | rfl | rfl | rfl | rfl <;> rfl)]
+           simp)
+    cases archs with
+    | some as =>
+      rcases ver with _ | ⟨c, v⟩ <;> cases aq <;>
+        simpa [toLossless, RelationBuilder.new, RelationBuilder.setVersionConstraint,
+          RelationBuilder.setArchqual, RelationBuilder.setArchitectures, RelationBuilder.setProfiles,
+          builtChildren] using key as
+    | none =>
+      have := key []
+      rcases ver with _ | ⟨c, v⟩ <;> cases aq <;>
+        simpa [toLossless, RelationBuilder.new, RelationBuilder.setVersionConstraint,
+          RelationBuilder.setArchqual, RelationBuilder.setArchitectures, RelationBuilder.setProfiles,
+          builtChildren, archPart] using this
 
-/-! ### its text -/
+/-! ### it is the tree of the canonical relation -/
 
 theorem sepBy_cons (sep : List RNode) (x : List RNode) (xs : List (List RNode)) :
     sepBy sep (x :: xs) = x ++ (xs.map (sep ++ ·)).flatten := by
@@ -70,207 +134,146 @@ theorem sepBy_cons (sep : List RNode) (x : List RNode) (xs : List (List RNode)) 
   | nil => simp [sepBy]
   | cons y ys ih => simp [sepBy, ih y, List.append_assoc]
 
+
+theorem constraintToks_tks (c : VC) : constraintToks c = tks (opToks c) := by
+  cases c <;> simp [constraintToks, VC.display, opToks, tks, tk]
+
+theorem splitOnce_digits (e body : Str) (he : ∀ c ∈ e, c ≠ ':') :
+    splitOnce ':' (e ++ ':' :: body) = some (e, body) := by
+  induction e with
+  | nil => simp [splitOnce]
+  | cons x xs ih =>
+    have hx : x ≠ ':' := he x (by simp)
+    simp [splitOnce, hx, ih (fun c hc => he c (by simp [hc]))]
+
+theorem versionTokens_valid (v : Version) (h : validVersion v = true) :
+    versionTokens v = tks (versionAOf v).toks := by
+  obtain ⟨hok, _⟩ := (validVersion_iff v).1 h
+  obtain ⟨hb, he⟩ := (VersionA.ok_iff _).1 hok
+  cases v with
+  | mk ep up rev =>
+    cases ep with
+    | none =>
+      have e1 : (Version.mk none up rev).display = (versionAOf ⟨none, up, rev⟩).body := by
+        cases rev <;> simp [Version.display, versionAOf]
+      simp only [versionTokens, Option.isSome_none, Bool.false_eq_true, ↓reduceIte]
+      split <;> (rw [e1]; simp [VersionA.toks, versionAOf, tks, tk])
+    | some e =>
+      have hd := (he (toString e).toList (by simp [versionAOf])).1
+      have hnc : ∀ c ∈ (toString e).toList, c ≠ ':' := by
+        intro c hc ecol
+        have : isAsciiDigit c = true := by
+          have := hd
+          simp only [isDigits, Bool.and_eq_true, List.all_eq_true] at this
+          exact this.2 c hc
+        rw [ecol] at this; exact absurd this (by decide)
+      have e1 : (Version.mk (some e) up rev).display
+          = (toString e).toList ++ ':' :: (versionAOf ⟨some e, up, rev⟩).body := by
+        cases rev <;> simp [Version.display, versionAOf]
+      simp only [versionTokens, e1, splitOnce_digits _ _ hnc, Option.isSome_some, ↓reduceIte]
+      simp [VersionA.toks, versionAOf, tks, tk, T]
+
+theorem versionNode_valid (c : VC) (v : Version) (h : validVersion v = true) :
+    versionNode c v = (⟨sp, [], c, sp, versionAOf v, []⟩ : VerPart).node := by
+  simp [versionNode, VerPart.node, constraintToks_tks, versionTokens_valid v h, gapToks, sp,
+    GapPiece.tok, tks, tk, T]
+
+theorem archToks_item (g : Gap) (a : Str) : tks (archItem g a).toks = tks (gapToks g) ++ archToks a := by
+  unfold archItem archToks
+  split <;> simp [Item.toks, tks, tk, T]
+
+theorem termToks_item (g : Gap) (p : BuildProfile) : tks (profItem g p).toks = tks (gapToks g) ++ termToks p := by
+  cases p <;> simp [profItem, Item.toks, termToks, tks, tk, T]
+
+theorem canonItems_tks {α} (mk : Gap → α → Item) (toks : α → List RNode)
+    (h : ∀ g x, tks (mk g x).toks = tks (gapToks g) ++ toks x) (xs : List α) :
+    tks (itemsToks (canonItems mk xs)) = sepBy [T .WHITESPACE " "] (xs.map toks) := by
+  cases xs with
+  | nil => rfl
+  | cons x rest =>
+    rw [List.map_cons, sepBy_cons]
+    simp only [canonItems, itemsToks, List.map_cons, List.flatten_cons, tks_append, h, List.map_map]
+    have : ∀ l : List α, tks ((l.map (Item.toks ∘ mk sp)).flatten)
+        = ((l.map toks).map ([T .WHITESPACE " "] ++ ·)).flatten := by
+      intro l
+      induction l with
+      | nil => rfl
+      | cons y ys ih =>
+        simp only [List.map_cons, List.flatten_cons, tks_append, Function.comp, h, ih]
+        simp [gapToks, sp, GapPiece.tok, tks, tk, T]
+    rw [this]
+    simp [gapToks, tks]
+
+theorem profsPart_canon (profs : List (List BuildProfile)) :
+    profsPart profs = profsNodes (profs.map fun g => (⟨sp, canonItems profItem g, []⟩ : Bracket)) := by
+  induction profs with
+  | nil => rfl
+  | cons p ps ih =>
+    have := canonItems_tks profItem termToks termToks_item p
+    simp only [profsPart, List.map_cons, List.flatten_cons, profsNodes_cons] at ih ⊢
+    rw [ih]
+    simp only [profilesNode, profBody, Bracket.body, tks_cons, tks_append, this]
+    simp [gapToks, sp, GapPiece.tok, tks, tk, T]
+
+/-- the builder produces exactly the tree the parser produces for the canonical text -/
+theorem toLossless_canon (r : Lossy.Relation) (h : validRS r = true) :
+    toLossless r = (canonRel r).node [] := by
+  obtain ⟨_, _, h3, h4, _⟩ := (validRS_iff r).1 h
+  rw [toLossless_eq, RelA.node_eq']
+  cases r with
+  | mk name aq archs ver profs =>
+    simp only [builtChildren, canonRel, Node.node.injEq, true_and, tks_nil, List.append_nil]
+    congr 1
+    have e1 : aqPart aq = aqNodes aq := by cases aq <;> rfl
+    have e2 : verPart ver = verNodes (ver.map fun (c, v) => (⟨sp, [], c, sp, versionAOf v, []⟩ : VerPart)) := by
+      rcases ver with _ | ⟨c, v⟩
+      · rfl
+      · simp [verPart, verNodes, versionNode_valid c v (h3 c v rfl), gapToks, sp, GapPiece.tok, tks, tk, T]
+    have e3 : archPart archs = archNodes (archs.map fun as => (⟨sp, canonItems archItem as, []⟩ : Bracket)) := by
+      cases archs with
+      | none => rfl
+      | some as =>
+        cases as with
+        | nil => exact absurd rfl (h4 [] rfl).1
+        | cons a rest =>
+          have := canonItems_tks archItem archToks archToks_item (a :: rest)
+          simp only [archPart, archNodes, Option.map_some, architecturesNode, archBody, Bracket.body,
+            tks_cons, tks_append, this]
+          simp [gapToks, sp, GapPiece.tok, tks, tk, T]
+    have e4 := profsPart_canon profs
+    rw [e1, e2, e3, e4]
+
+/-! ### text and conversion back -/
+
+/-- the RELATION node of a well-formed relation prints as the relation is written -/
+theorem RelA.node_text (r : RelA) (hr : r.ok = true) : (r.node []).text = r.str := by
+  have hpr := parseRelation_rel r [] [] (Or.inl rfl)
+  have e0 : gapToks [] = [] := rfl
+  simp only [e0, List.nil_append, List.append_nil, ite_self] at hpr
+  have hok := parseRelation_ok r.toks
+  rw [hpr] at hok
+  simp only [PR.Ok, leavesList_cons, leavesList_nil, List.append_nil] at hok
+  have hlex : lex r.str = r.toks := by simpa [lex_nil] using lex_rel r [] hr (headFails_nil _)
+  rw [← tokText_leaves, hok, ← hlex]
+  exact Deb822Verif.Props.C09.lex_text r.str
+
+/-- the lossless form prints the same text as the lossy one -/
+theorem toLossless_text (r : Lossy.Relation) (h : validRS r = true) :
+    (toLossless r).text = showRelation r := by
+  rw [toLossless_canon r h, RelA.node_text _ (canonRel_ok r (validR_of_validRS h)), canonRel_str]
+
+/-- converting back gives the original value -/
+theorem toLossless_back (r : Lossy.Relation) (h : validRS r = true) : toLossy (toLossless r) = .ok r := by
+  rw [toLossless_canon r h]
+  simp [toLossy, accRelation_rel (canonRel r) [] (canonRel_ok r (validR_of_validRS h)), canonRel_view r (validR_of_validRS h)]
+
+/-! ### entries -/
+
 theorem textList_flatten_map (f : α → List RNode) (xs : List α) :
     textList (xs.map f).flatten = (xs.map fun x => textList (f x)).flatten := by
   induction xs with
   | nil => rfl
   | cons x xs ih => simp [ih]
-
-theorem constraintToks_text (c : VC) : textList (constraintToks c) = c.display := by
-  cases c <;> simp [constraintToks, VC.display]
-
-theorem architecturesNode_text (as : List Str) :
-    (architecturesNode as).text = '[' :: (Text.join [' '] as ++ [']']) := by
-  cases as with
-  | nil => simp [architecturesNode, sepBy, Text.join, T]
-  | cons a rest =>
-    have := flatten_cons_map [' '] a rest
-    simp only [architecturesNode, List.map_cons, sepBy_cons, text_node, textList_cons, text_tok, T,
-      textList_append, List.map_map, textList_flatten_map]
-    simp [Function.comp_def, ← this]
-
-theorem termToks_text (p : BuildProfile) : textList (termToks p) = showProfile p := by
-  cases p <;> simp [termToks, showProfile, T]
-
-theorem profilesNode_eq (p : List BuildProfile) :
-    profilesNode p = .node .PROFILES (T .L_ANGLE "<" :: (sepBy [T .WHITESPACE " "] (p.map termToks) ++ [T .R_ANGLE ">"])) := rfl
-
-theorem profilesNode_text (p : List BuildProfile) :
-    (profilesNode p).text = '<' :: (Text.join [' '] (p.map showProfile) ++ ['>']) := by
-  rw [profilesNode_eq]
-  cases p with
-  | nil => simp [sepBy, Text.join, T]
-  | cons a rest =>
-    have := flatten_cons_map [' '] (showProfile a) (rest.map showProfile)
-    simp only [List.map_cons, sepBy_cons, text_node, textList_cons, text_tok, T, textList_append,
-      List.map_map, textList_flatten_map, termToks_text]
-    simp [Function.comp_def, termToks_text, ← this]
-
-/-- the lossless form prints the same text as the lossy one -/
-theorem built_text (r : Lossy.Relation) (as : List Str) (ha : r.architectures = some as)
-    (hp : r.profiles.length ≤ 1) :
-    (Node.node Kind.RELATION (builtChildren r as)).text = showRelation r := by
-  cases r with
-  | mk name aq archs ver profs =>
-    simp only at ha hp; subst ha
-    have hprofs : profs = [] ∨ ∃ p, profs = [p] := by
-      cases profs with
-      | nil => exact Or.inl rfl
-      | cons p ps =>
-        cases ps with
-        | nil => exact Or.inr ⟨p, rfl⟩
-        | cons q qs => simp at hp
-    rcases hprofs with rfl | ⟨p, rfl⟩ <;> cases aq <;> rcases ver with _ | ⟨c, v⟩ <;>
-      simp [builtChildren, aqPart, verPart, profPart, showRelation, T, constraintToks_text,
-        architecturesNode_text, profilesNode_text]
-
-/-! ### converting back -/
-
-theorem archStep_sep (as : List Str) (acc : List Str) :
-    (sepBy [T .WHITESPACE " "] (as.map fun a => [Node.tok .IDENT a])).foldl archStep (false, acc)
-      = (false, acc ++ as) := by
-  cases as with
-  | nil => simp [sepBy]
-  | cons a rest =>
-    rw [List.map_cons, sepBy_cons, List.foldl_append]
-    have h1 : [Node.tok Kind.IDENT a].foldl archStep (false, acc) = (false, acc ++ [a]) := by
-      simp [archStep]
-    rw [h1]
-    have : ∀ (l : List Str) (acc' : List Str),
-        ((l.map fun a => [Node.tok Kind.IDENT a]).map ([T .WHITESPACE " "] ++ ·)).flatten.foldl archStep (false, acc')
-          = (false, acc' ++ l) := by
-      intro l
-      induction l with
-      | nil => intro acc'; simp
-      | cons b bs ih =>
-        intro acc'
-        simp only [List.map_cons, List.flatten_cons, List.foldl_append, List.foldl_cons, List.foldl_nil]
-        have e1 : archStep (false, acc') (T .WHITESPACE " ") = (false, acc') := by simp [archStep, T]
-        have e2 : archStep (false, acc') (Node.tok Kind.IDENT b) = (false, acc' ++ [b]) := by simp [archStep]
-        rw [e1, e2, ih]; simp
-    rw [this]; simp
-
-theorem architectures_built (as : List Str) :
-    ((architecturesNode as).children.foldl archStep (false, [])).2 = as := by
-  simp only [architecturesNode, Node.children, List.foldl_cons, List.foldl_append]
-  have e1 : archStep (false, []) (T .L_BRACKET "[") = (false, []) := by simp [archStep, T]
-  rw [e1, archStep_sep]
-  simp [archStep, T]
-
-theorem parse_disabled (n : Str) : BuildProfile.parse ('!' :: n) = .Disabled n := rfl
-
-theorem termFold (p : BuildProfile) (hp : isIdent (profName p) = true) (ret : List BuildProfile) :
-    ∃ cur, (termToks p).foldl profileStep (ret, []) = (ret, cur) ∧ cur ≠ []
-      ∧ BuildProfile.parse cur.flatten = p := by
-  cases p with
-  | Enabled n =>
-    exact ⟨[n], by simp [termToks, profileStep, Node.kind, Node.text], by simp,
-      by simpa using parse_ident_profile n hp⟩
-  | Disabled n =>
-    exact ⟨[['!'], n], by simp [termToks, profileStep, Node.kind, Node.text, T], by simp,
-      by simp [BuildProfile.parse]⟩
-
-theorem profileStep_wsTok (st : List BuildProfile × List Str) :
-    profileStep st (T .WHITESPACE " ") = (flush st, []) := by
-  simpa [tk, T] using profileStep_ws st (.WHITESPACE, [' ']) rfl
-
-theorem profileGroup_built (p : List BuildProfile) (hp : ∀ x ∈ p, isIdent (profName x) = true) :
-    profileGroup (profilesNode p) = p := by
-  rw [profilesNode_eq]
-  simp only [profileGroup, Node.children, List.foldl_cons, List.foldl_append, List.foldl_nil]
-  have e1 : profileStep ([], []) (T .L_ANGLE "<") = ([], []) := by simp [profileStep, Node.kind, T]
-  have e2 : ∀ st, profileStep st (T .R_ANGLE ">") = st := by intro st; simp [profileStep, Node.kind, T]
-  have hfl : ∀ st : List BuildProfile × List Str,
-      (if !st.2.isEmpty then BuildProfile.parse st.2.flatten :: st.1 else st.1) = flush st := by
-    intro st; simp only [flush]; cases st.2.isEmpty <;> simp
-  rw [e1, e2, hfl]
-  cases p with
-  | nil => simp [sepBy, flush]
-  | cons a rest =>
-    rw [List.map_cons, sepBy_cons, List.foldl_append]
-    obtain ⟨cur, hc, hne, hpa⟩ := termFold a (hp a (by simp)) []
-    rw [hc]
-    have : ∀ (l : List BuildProfile) (st : List BuildProfile × List Str),
-        (∀ x ∈ l, isIdent (profName x) = true) →
-        flush (((l.map termToks).map ([T .WHITESPACE " "] ++ ·)).flatten.foldl profileStep st)
-          = l.reverse ++ flush st := by
-      intro l
-      induction l with
-      | nil => intro st _; simp
-      | cons b bs ih =>
-        intro st hb
-        simp only [List.map_cons, List.flatten_cons, List.foldl_append, List.foldl_cons, List.foldl_nil]
-        rw [profileStep_wsTok]
-        obtain ⟨cur', hc', hne', hpb⟩ := termFold b (hb b (by simp)) (flush st)
-        rw [hc', ih _ (fun x hx => hb x (by simp [hx]))]
-        have : flush (flush st, cur') = b :: flush st := by
-          cases cur' with
-          | nil => exact absurd rfl hne'
-          | cons c cs => simp [flush, ← hpb]
-        rw [this]; simp
-    rw [this rest _ (fun x hx => hp x (by simp [hx]))]
-    have : flush (([] : List BuildProfile), cur) = [a] := by
-      cases cur with
-      | nil => exact absurd rfl hne
-      | cons c cs => simp [flush, ← hpa]
-    rw [this]; simp
-
-theorem validVersion_parse (v : Version) (h : validVersion v = true) : Version.parse v.display = some v := by
-  obtain ⟨hok, hval⟩ := (validVersion_iff v).1 h
-  have := Version.parse_written (versionAOf v) hok
-  rwa [versionAOf_str, hval] at this
-
-theorem validVersion_display_ne (v : Version) (h : validVersion v = true) : v.display ≠ [] := by
-  obtain ⟨hok, _⟩ := (validVersion_iff v).1 h
-  obtain ⟨hb, _⟩ := (VersionA.ok_iff _).1 hok
-  obtain ⟨hne, _⟩ := (isIdent_iff _).1 hb
-  rw [← versionAOf_str]
-  intro e
-  cases hep : (versionAOf v).epoch <;> simp [VersionA.str, hep] at e
-  exact hne e
-
-/-- converting the built tree back gives the original value -/
-theorem built_back (r : Lossy.Relation) (as : List Str) (ha : r.architectures = some as)
-    (hp : r.profiles.length ≤ 1) (hv : validR r = true) :
-    toLossy (.node .RELATION (builtChildren r as)) = .ok r := by
-  obtain ⟨h1, h2, h3, h4, h5⟩ := (validR_iff r).1 hv
-  cases r with
-  | mk name aq archs ver profs =>
-    simp only at ha hp h3 h5; subst ha
-    have hprofs : profs = [] ∨ ∃ p, profs = [p] := by
-      cases profs with
-      | nil => exact Or.inl rfl
-      | cons p ps =>
-        cases ps with
-        | nil => exact Or.inr ⟨p, rfl⟩
-        | cons q qs => simp at hp
-    have harch := architectures_built as
-    have base : ∀ (x : Lossy.Relation), True := fun _ => trivial
-    rcases hprofs with rfl | ⟨p, rfl⟩
-    · rcases ver with _ | ⟨c, v⟩
-      · cases aq <;>
-          simp [toLossy, accRelation, Rel.name, archqual, version, architectures, profiles, firstChildNode,
-            childNodes, firstIdentTok, versionText, builtChildren, aqPart, verPart, profPart, T, harch]
-      · have hpv := validVersion_parse v (h3 c v rfl)
-        have hne := validVersion_display_ne v (h3 c v rfl)
-        cases aq <;>
-          simp [toLossy, accRelation, Rel.name, archqual, version, architectures, profiles, firstChildNode,
-            childNodes, firstIdentTok, versionText, builtChildren, aqPart, verPart, profPart, T, harch, constraintToks_text, VC.parse_display,
-            hpv, hne]
-    · have hpg := profileGroup_built p (h5 p (by simp))
-      rcases ver with _ | ⟨c, v⟩
-      · cases aq <;>
-          simp [toLossy, accRelation, Rel.name, archqual, version, architectures, profiles, firstChildNode,
-            childNodes, firstIdentTok, versionText, builtChildren, aqPart, verPart, profPart, T, harch, hpg]
-      · have hpv := validVersion_parse v (h3 c v rfl)
-        have hne := validVersion_display_ne v (h3 c v rfl)
-        cases aq <;>
-          simp [toLossy, accRelation, Rel.name, archqual, version, architectures, profiles, firstChildNode,
-            childNodes, firstIdentTok, versionText, builtChildren, aqPart, verPart, profPart, T, harch, constraintToks_text, VC.parse_display,
-            hpv, hne, hpg]
-
-
-/-! ### entries -/
 
 theorem collect_ok {α β} (f : α → Outcome β) (g : α → β) (l : List α) (h : ∀ x ∈ l, f x = .ok (g x)) :
     collect f l = .ok (l.map g) := by
@@ -278,41 +281,6 @@ theorem collect_ok {α β} (f : α → Outcome β) (g : α → β) (l : List α)
   | nil => rfl
   | cons x xs ih =>
     simp [collect, h x (by simp), ih (fun y hy => h y (by simp [hy])), Outcome.bind, Outcome.map]
-
-/-- a relation outside the trigger regions of F-C14-1 / F-C14-2 -/
-def convOk (r : Lossy.Relation) : Prop := trigNoArchs r = false ∧ trigManyProfiles r = false
-
-/-- the tree `toLossless` builds for such a relation -/
-def builtTree (r : Lossy.Relation) : RNode :=
-  .node .RELATION (builtChildren r (r.architectures.getD []))
-
-theorem convOk_data {r : Lossy.Relation} (h : convOk r) :
-    ∃ as, r.architectures = some as ∧ r.profiles.length ≤ 1 := by
-  obtain ⟨ha, hp⟩ := h
-  cases hx : r.architectures with
-  | none => simp [trigNoArchs, hx] at ha
-  | some as => exact ⟨as, rfl, by simp [trigManyProfiles] at hp; omega⟩
-
-theorem toLossless_built (r : Lossy.Relation) (h : convOk r) : toLossless r = .ok ⟨builtTree r, false⟩ := by
-  obtain ⟨as, ha, hp⟩ := convOk_data h
-  simp [builtTree, ha, toLossless_ok r as ha hp]
-
-theorem builtTree_text (r : Lossy.Relation) (h : convOk r) : (builtTree r).text = showRelation r := by
-  obtain ⟨as, ha, hp⟩ := convOk_data h
-  simp only [builtTree, ha, Option.getD_some]
-  exact built_text r as ha hp
-
-theorem builtTree_back (r : Lossy.Relation) (h : convOk r) (hv : validR r = true) :
-    toLossy (builtTree r) = .ok r := by
-  obtain ⟨as, ha, hp⟩ := convOk_data h
-  simp only [builtTree, ha, Option.getD_some]
-  exact built_back r as ha hp hv
-
-theorem entryFromLossy_ok (e : List Lossy.Relation) (h : ∀ r ∈ e, convOk r) :
-    entryFromLossy e = .ok (entryFromRelations (e.map builtTree)) := by
-  have := collect_ok (fun r => (toLossless r).map (·.tree)) builtTree e
-    (fun r hr => by simp [toLossless_built r (h r hr), Outcome.map])
-  rw [entryFromLossy, this]; rfl
 
 theorem sepBy_singletons_text (sep : List RNode) (ts : List RNode) :
     textList (sepBy sep (ts.map fun r => [r])) = Text.join (textList sep) (ts.map Node.text) := by
@@ -325,15 +293,16 @@ theorem sepBy_singletons_text (sep : List RNode) (ts : List RNode) :
       textList_flatten_map]
     simp [Function.comp_def, ← this]
 
+
 /-- the entry built from lossy relations prints them separated by ` | ` -/
-theorem entry_text (e : List Lossy.Relation) (h : ∀ r ∈ e, convOk r) :
-    (entryFromRelations (e.map builtTree)).tree.text = Text.join [' ', '|', ' '] (e.map showRelation) := by
-  have : ((e.map builtTree).map Node.text) = e.map showRelation := by
+theorem entry_text (e : List Lossy.Relation) (h : ∀ r ∈ e, validRS r = true) :
+    (entryFromLossy e).text = Text.join [' ', '|', ' '] (e.map showRelation) := by
+  have : ((e.map toLossless).map Node.text) = e.map showRelation := by
     rw [List.map_map]
-    exact List.map_congr_left fun r hr => builtTree_text r (h r hr)
-  have hs := sepBy_singletons_text [T .WHITESPACE " ", T .COMMA "|", T .WHITESPACE " "] (e.map builtTree)
+    exact List.map_congr_left fun r hr => toLossless_text r (h r hr)
+  have hs := sepBy_singletons_text [T .WHITESPACE " ", T .PIPE "|", T .WHITESPACE " "] (e.map toLossless)
   rw [this] at hs
-  simpa [entryFromRelations, inject, T] using hs
+  simpa [entryFromLossy, entryFromRelations, inject, T] using hs
 
 theorem cn_sepBy_singletons (k : Kind) (sep : List Tok) (ts : List RNode)
     (hts : ∀ t ∈ ts, t.isNode = true ∧ t.kind = k) :
@@ -359,28 +328,29 @@ theorem cn_sepBy_singletons (k : Kind) (sep : List Tok) (ts : List RNode)
     rw [cn_append, h1, this rest (fun x hx => hts x (by simp [hx]))]
     rfl
 
+
 /-- converting the built entry back gives the original relations -/
-theorem entry_back (e : List Lossy.Relation) (h : ∀ r ∈ e, convOk r) (hv : ∀ r ∈ e, validR r = true) :
-    entryToLossy (entryFromRelations (e.map builtTree)).tree = .ok e := by
-  have hrel : relations (entryFromRelations (e.map builtTree)).tree = e.map builtTree := by
-    simp only [relations, entryFromRelations, inject, childNodes_node]
-    have : [T .WHITESPACE " ", T .COMMA "|", T .WHITESPACE " "]
-        = tks [(.WHITESPACE, [' ']), (.COMMA, ['|']), (.WHITESPACE, [' '])] := rfl
+theorem entry_back (e : List Lossy.Relation) (h : ∀ r ∈ e, validRS r = true) :
+    entryToLossy (entryFromLossy e) = .ok e := by
+  have hrel : relations (entryFromLossy e) = e.map toLossless := by
+    simp only [relations, entryFromLossy, entryFromRelations, inject, childNodes_node]
+    have : [T .WHITESPACE " ", T .PIPE "|", T .WHITESPACE " "]
+        = tks [(.WHITESPACE, [' ']), (.PIPE, ['|']), (.WHITESPACE, [' '])] := rfl
     rw [this]
     exact cn_sepBy_singletons .RELATION _ _ (by
       intro t ht
       simp only [List.mem_map] at ht
       obtain ⟨r, _, rfl⟩ := ht
-      exact ⟨rfl, rfl⟩)
+      rw [toLossless_eq]; exact ⟨rfl, rfl⟩)
   rw [entryToLossy, hrel]
-  have : ∀ l : List Lossy.Relation, (∀ r ∈ l, convOk r) → (∀ r ∈ l, validR r = true) →
-      collect toLossy (l.map builtTree) = .ok l := by
-    intro l h1 h2
+  have : ∀ l : List Lossy.Relation, (∀ r ∈ l, validRS r = true) →
+      collect toLossy (l.map toLossless) = .ok l := by
+    intro l h2
     induction l with
     | nil => rfl
     | cons r rs ih =>
-      simp [collect, builtTree_back r (h1 r (by simp)) (h2 r (by simp)),
-        ih (fun x hx => h1 x (by simp [hx])) (fun x hx => h2 x (by simp [hx])), Outcome.bind, Outcome.map]
-  exact this e h hv
+      simp [collect, toLossless_back r (h2 r (by simp)),
+        ih (fun x hx => h2 x (by simp [hx])), Outcome.bind, Outcome.map]
+  exact this e h
 
 end Deb822Verif.Rel.Build
